@@ -138,6 +138,24 @@ def run(ctx):
     # Split::next: uses split_once on the remaining haystack, ends with None haystack
     sp = fx.body("<clap_lex::ext::Split as std::iter::traits::iterator::Iterator>::next")
     res.check(bool(sp.calls_to(r"OsStrExt>?::split_once$")), "R14.2", "split-next", sp.where(), "Split::next = split_once on the rest", "Split::next no longer uses split_once")
+    # every piece Split::next hands out is decided by split_once alone: first half + keep the rest, or (no needle left) the whole rest + stop
+    H_ = "branch(self.haystack)#Continue.0"
+    SO = "split_once(%s,self.needle)" % H_
+    for d in sp.def_sites(0):
+        rv = d[3]
+        if not (isinstance(rv, dict) and rv["k"] == "agg" and rv.get("variant") == "Some"):
+            continue
+        piece = expr(sp, rv["ops"][0])
+        gl = guard_strs(sp, d[0])
+        extra = [g for g in gl if not re.match(r"^(V0:branch\(self\.haystack\)|!?V1:split_once\()", g)]
+        if piece.startswith(SO + "#Some.0.0"):
+            ok_ = ("V1:" + SO) in gl and not extra
+        elif piece == H_:
+            ok_ = ("!V1:" + SO) in gl and not extra
+        else:
+            ok_ = False
+        res.check(ok_, "R14.2", "split-next-piece|" + ("first-half" if "Some.0.0" in piece else "rest" if piece == H_ else "other"), "%s bb%d" % (sp.where(), d[0]),
+                  "piece decided by split_once only", "Split::next yields %s under %s: pieces are no longer exactly those of repeated split_once (e.g. a remainder equal to the needle is returned whole instead of as two empty pieces)" % (piece[:50], [g[:50] for g in extra] or gl))
 
     # ---- R14.3 PANIC over clap_lex
     inv = panics.inventory(fx, cl.bodies)
